@@ -1595,6 +1595,11 @@ class SpinSymKernel(ADKernel):
         else:
             return kup + kdown
 
+    def diag(self, X):
+        return self.k.diag(X[:, self.up_active_dims]) + self.k.diag(
+            X[:, self.down_active_dims]
+        )
+
 
 class SubsetRBF(_SubsetMixin, DiffRBF):
     pass
